@@ -181,6 +181,7 @@ structure State where
   phase : Phase := .loading
   launches : List (Obj × Nat) := []            -- ghost: every submission (object, incarnation)
   resets : List (Obj × Nat) := []              -- ghost: every restart-time reset
+  reopened : Bool := false                     -- ghost: a restart gave a finished node a new fork
   full : Bool := false                         -- `Config.FullStageReset` (constant of a run)
   wipedAtLoad : List Nat := []                 -- nodes whose state was Failed or Running right after the last re-attach
   deriving Repr, Inhabited
@@ -394,11 +395,7 @@ def guards (s : State) : Ev → List (String × Bool)
   | .fork n f => [("mrp-dead", s.phase != Phase.crashed), ("no-such-node", decide (n < s.nodes.length)),
                   ("fork-exists", !(s.forksOf n).contains f),
                   ("expansion-of-finished-or-running-node",
-                    s.phase != Phase.normal || (!nodeDone s n && s.cachedOf n != NState.running)),
-                  -- re-attaching rebuilds the forks; a fork unknown so far can only belong
-                  -- to a node that is not finished (only the very first load starts from nothing)
-                  ("new-fork-of-finished-node-at-restart",
-                    s.phase != Phase.loading || s.inc == 0 || !nodeDone s n)]
+                    s.phase != Phase.normal || (!nodeDone s n && s.cachedOf n != NState.running))]
   | .forkorder n l => [("only-at-load", s.phase == .loading), ("not-a-sublist-of-known-forks", isSubNodup l (s.forksOf n))]
   | .mkchunks n f k =>
       [("mrp-dead", s.phase != Phase.crashed), ("no-such-fork", s.hasObj ⟨n, f, .fork⟩),
@@ -444,7 +441,12 @@ def apply (s : State) : Ev → State
   | .R o x => s.updMeta o (see x)
   | .D o x => s.updMeta o (see x)
   | .U o _ => s.updMeta o unq
-  | .fork n f => { s with forks := aset s.forks n (s.forksOf n ++ [f]) }
+  | .fork n f =>
+      -- re-attaching rebuilds the forks (`RestoreForks`): a disabled mapped call whose
+      -- placeholder fork had been disabled before its forks were known gets fresh forks
+      -- and is, for a moment, unfinished again; remembered in `reopened`
+      { s with forks := aset s.forks n (s.forksOf n ++ [f]),
+               reopened := s.reopened || (s.phase == .loading && s.inc != 0 && nodeDone s n) }
   | .forkorder n l => { s with forks := aset s.forks n l }
   | .mkchunks n f k => { s with nchunks := aset s.nchunks (n, f) k }
   | .launch o =>
